@@ -309,7 +309,7 @@ def phase_model(ctx, variant):
     var = variant or ALL_REPAIRED
     invs = ["InvNoError", "InvTermsC", "InvTermsPy", "InvSameTermsBothLanguages", "InvPyReportsTotals",
             "InvOnlyAboveCutoff", "InvZeroT", "InvTemperatures", "InvCounts", "InvZeroPointAttribute",
-            "InvProjection", "InvCountMatchesTerms"]
+            "InvProjection", "InvCountMatchesTerms", "InvEveryQPointCovered"]
     cuts2 = "{[g |-> FALSE, c |-> 0], [g |-> TRUE, c |-> 1]}"
     cuts3 = "{[g |-> FALSE, c |-> 0], [g |-> TRUE, c |-> -1], [g |-> TRUE, c |-> 1]}"
     cuts4 = "{[g |-> FALSE, c |-> 0], [g |-> TRUE, c |-> -1], [g |-> TRUE, c |-> 1], [g |-> TRUE, c |-> 2]}"
@@ -838,7 +838,7 @@ def run(ctx):
         "(cancellation of the coded exp(x) - 1); identities 1e-6 / 1e-4 / 1e-2 N k_B for the same classes",
         "decoding realisation: four frequency levels 2^-6 * 2^{2,5,8,10} THz, 16 temperatures 2 K .. 3000 K",
     ]
-    phases = os.environ.get("C10_PHASES", "trace,replay,model,ieee,identities,api,args").split(",")
+    phases = os.environ.get("C10_PHASES", "trace,replay,model,ieee,identities,api,args,ladder").split(",")
     variant = None
     if "trace" in phases:
         cfgs, req_by_id, variant = phase_trace(ctx)
@@ -855,3 +855,6 @@ def run(ctx):
         phase_api(ctx)
     if "args" in phases:
         phase_args(ctx)
+    if "ladder" in phases:
+        from harness import c10_ladder
+        c10_ladder.phase_ladder(ctx, once_module, violated_names)
